@@ -339,5 +339,16 @@ def install_symexpr_dispatch(it, builder):
     def getattr_(obj, name, node=None):
         if isinstance(obj, I.SObj) and obj.cls is builder.expr_cls and name == 'eval':
             return I.Builtin('SymExpr.eval', lambda it2, a, k, obj=obj: builder.eval_expr(it2, obj, *a))
+        if isinstance(obj, I.SObj) and name == 'eval' and obj.cls.name in ('Hi', 'Lo') and isinstance(obj.fields.get('expr'), I.SObj) \
+                and obj.fields['expr'].cls is builder.expr_cls:
+            # %hi / %lo around a symbolic leaf: the REAL eval runs; its result is recorded like a leaf evaluation, so later
+            # obligations speak of the very value the pass computed (no second encoding of the split)
+            bound = orig_getattr(obj, name, node)
+
+            def recorded(it2, a, k, obj=obj, bound=bound):
+                r = it2.call(bound, a, k)
+                builder.evals.append((obj, a[0] if a else None, a[1] if len(a) > 1 else None, a[2] if len(a) > 2 else None, r))
+                return r
+            return I.Builtin('%s.eval' % obj.cls.name, recorded)
         return orig_getattr(obj, name, node)
     it.getattr = getattr_
